@@ -58,8 +58,14 @@ func TracerouteSerial(ctx context.Context, t TracerouteDriver, p TracerouteSeria
 
 		if probe != nil {
 			log.Tracef("found probe %+v", probe)
+			// packets can get delivered twice, and a late duplicate can show up while we are listening
+			// for a later TTL - keep the first probe received for a TTL (same rule as TracerouteParallel)
+			// to avoid overestimating RTT, but never let an ICMP response cover up a destination response
+			previous := results[probe.TTL]
+			if previous == nil || (!previous.IsDest && probe.IsDest) {
+				results[probe.TTL] = probe
+			}
 			// if we found the destination, no need to keep going
-			results[probe.TTL] = probe
 			if probe.IsDest {
 				break
 			}
